@@ -179,8 +179,61 @@ class NamingMonitor:
             return (False, "")
         return None
 
+    def warm(self, call):
+        """ask for the element the call is about to remove / rename right before the call (an answer
+        remembered from this lookup must not survive the call): same question first thing after"""
+        import spydrnet as sdn
+
+        self.probes = []
+        kind = call.meta.get("kind")
+        E = None
+        if kind == "remove" and call.meta.get("elements"):
+            E = call.meta["elements"][0]
+        elif call.name.startswith("el.") and call.name != "el.clone_container":
+            E = call.target
+        if E is None or not hasattr(E, "data"):
+            return
+        par, _ = parent_and_siblings(E)
+        if par is None or policy(par) is None:
+            return
+        getter = {sdn.Library: sdn.get_libraries, sdn.Definition: sdn.get_definitions,
+                  sdn.Port: sdn.get_ports, sdn.Cable: sdn.get_cables,
+                  sdn.Instance: sdn.get_instances}.get(type(E))
+        if getter is None:
+            return
+        for key in (".NAME", "EDIF.identifier"):
+            v = E.data.get(key)
+            if isinstance(v, str) and v and "*" not in v and "?" not in v:
+                try:
+                    list(getter(par, v, key=key))
+                except Exception:  # noqa
+                    continue
+                self.probes.append((par, getter, key, v, type(E)))
+
+    def recheck(self):
+        for par, getter, key, v, typ in getattr(self, "probes", []):
+            pol = policy(par)
+            sib = [c for _, children, _g in scopes_of(par) for c in children if type(c) is typ]
+            if key == ".NAME" or pol != "EDIF":
+                scan = [c for c in sib if c.data.get(key) == v]
+            else:
+                scan = [c for c in sib if isinstance(c.data.get(key), str) and c.data[key].lower() == v.lower()]
+            try:
+                got = list(getter(par, v, key=key))
+            except Exception as e:  # noqa
+                self.res.violate("C10:lookup-raises:%s:%s" % (key, type(e).__name__), repr(e))
+                return
+            gi, si = sorted(id(x) for x in got), sorted(id(x) for x in scan)
+            ok = gi == si if len(scan) <= 1 else (len(gi) >= 1 and set(gi) <= set(si))
+            if not ok:
+                self.res.violate("C10:lookup-differs-from-scan:%s:%s:%s:repeated-right-after-the-edit" % (
+                    key, pol, "miss" if len(gi) < len(si) else "ghost"),
+                    "value %r: lookup returned %d element(s), scan finds %d" % (v, len(gi), len(si)))
+                return
+
     def before(self, U, call):
         self.expect = self.predict(call)
+        self.warm(call)
         self.inv = []
         for o in [call.target] + [a for a in call.args if not isinstance(a, (str, int, list, tuple))]:
             if o is None:
@@ -192,6 +245,9 @@ class NamingMonitor:
 
     # ---------------------------------------------------------------- after
     def after(self, U, call, accepted, exc):
+        if self.res.violations:
+            return
+        self.recheck()
         if self.res.violations:
             return
         clone_tag = ":on-clone" if self.touches_clone(call) else ""
